@@ -263,6 +263,67 @@ def check(prog, rep, tier):
         okd = False
     if okd and seen:
         rep.ok("C04.no-duplicate", f"{CTX}.add_alt: _add only under _contained_at_loc(q, r) == -1")
+    elif okd:
+        rep.bad("C04.no-duplicate", f"{CTX}.add_alt", "never adds", "add_alt never reaches _add: added hashes are not stored", aa.where())
+    # (e) two necessary conditions of the layout logic that are visible in the shape of the code
+    rep.rule("C04.lookup-within-run", "a slot is reported as holding the element only while the scan is still inside the element's own run", floor=1)
+    rep.rule("C04.run-emptied-clears-occupied", "removing the only element of a run clears that quotient's occupied bit, on every exit; otherwise the bit is kept", floor=1)
+    cl = prog.method(CTX, "_contained_at_loc")
+    okl, seen = True, False
+    for p in paths(prog, CTX, cl):
+        if p.exit[0] != "return" or strip_epochs(p.exit[1]) == C(-1):
+            continue
+        seen = True
+        inrun = [c for c in p.conds if c.loops and strip_epochs(c.atom)[0] == "cmp" and strip_epochs(c.atom)[1] in ("==", ">=", "!=", "<")
+                 and strip_epochs(c.atom)[3] == C(2) and any(n[0] == "hv" for n in walk(c.atom))]
+        still = inrun and all(((strip_epochs(c.atom)[1] in ("==", ">=")) != c.truth) for c in inrun)
+        match = [c for c in p.conds if c.loops and c.truth and strip_epochs(c.atom)[0] == "cmp" and strip_epochs(c.atom)[1] == "=="
+                 and ("p", "r") in (strip_epochs(c.atom)[2], strip_epochs(c.atom)[3])]
+        if not match:
+            rep.bad("C04.lookup-within-run", f"{CTX}._contained_at_loc", "found without a remainder match", "an index is returned on a path that never compared the stored remainder with r", cl.where(p.exit[2]))
+            okl = False
+            break
+        if not still:
+            rep.bad("C04.lookup-within-run", f"{CTX}._contained_at_loc", "match accepted without the run-boundary test",
+                    "a slot whose remainder equals r is reported as a hit on a path that has not established that the scan is still inside the element's own run "
+                    "(the second run start was not excluded): the first element of the NEXT run can be mistaken for the key, so add drops a new key / check reports a never-added hash", cl.where(p.exit[2]))
+            okl = False
+            break
+    if okl and seen:
+        rep.ok("C04.lookup-within-run", f"{CTX}._contained_at_loc: hit only with starts != 2 established")
+    rme = prog.method(CTX, "_remove_element")
+    oko, nsolo, nmulti = True, 0, 0
+    qp = ("p", "q")
+    for p in paths(prog, CTX, rme, max_states=20000):
+        if p.exit[0] != "return":
+            continue
+        mut = [e for e in p.events if e.kind == "setelem" or (e.kind == "call" and e.name in ("clear_bit", "set_bit", "__setitem__"))]
+        if not mut:
+            continue
+        top = [c for c in p.conds if not c.loops]
+        rs = [c for c in top if strip_epochs(c.atom)[0] == "ret" and strip_epochs(c.atom)[1].endswith("._is_run_or_cluster_start")]
+        ct = [c for c in top if strip_epochs(c.atom)[0] == "cmp" and strip_epochs(c.atom)[3] == C(0) and strip_epochs(c.atom)[2][0] == "ret"
+              and strip_epochs(c.atom)[2][1].endswith("Bitarray.check_bit") and strip_epochs(c.atom)[2][3][0] == ("f", SELF, "_is_continuation", 0)]
+        if not rs:
+            continue
+        solo = rs[0].truth and bool(ct) and ((strip_epochs(ct[0].atom)[1] == "==") == ct[0].truth)
+        clears = [e for e in p.events if e.kind == "call" and e.target is not None and e.recv is not None and strip_epochs(e.recv) == ("f", SELF, "_is_occupied", 0)
+                  and ((e.target.src_name == "__setitem__" and [strip_epochs(a) for a in e.args] == [qp, C(0)]) or (e.target.src_name == "clear_bit" and [strip_epochs(a) for a in e.args] == [qp]))]
+        if solo:
+            nsolo += 1
+        else:
+            nmulti += 1
+        if solo != bool(clears):
+            loc = rme.where(p.exit[2]) if p.exit[2] is not None else rme.where()
+            rep.bad("C04.run-emptied-clears-occupied", f"{CTX}._remove_element", f"only element of its run={solo}, occupied[q] cleared={bool(clears)}",
+                    f"on an exit of _remove_element the removed element {'was' if solo else 'was not'} the only one of its run but is_occupied[q] is "
+                    f"{'cleared' if clears else 'left set'}: later run-start computations in that cluster count one run too {'few' if clears else 'many'}", loc)
+            oko = False
+            break
+    if oko and nsolo and nmulti:
+        rep.ok("C04.run-emptied-clears-occupied", f"{CTX}._remove_element: {nsolo} exits of a run's last element clear occupied[q], {nmulti} other exits keep it")
+    elif oko:
+        raise AnalysisError("C04: could not classify the exits of _remove_element by 'only element of its run'")
     # (d) resize / merge
     rz = prog.method(CTX, "resize")
     okr, seen = True, False
@@ -288,6 +349,8 @@ def check(prog, rep, tier):
                 break
     if okr and seen:
         rep.ok("C04.reinsert-all", f"{CTX}.resize: get_hashes() before __set_params, every hash re-inserted")
+    elif okr:
+        rep.bad("C04.reinsert-all", f"{CTX}.resize", "nothing re-inserted", "resize replaces the arrays and never re-inserts the stored hashes", rz.where())
     mg = prog.method(CTX, "merge")
     okm = False
     for p in paths(prog, CTX, mg):
@@ -301,7 +364,7 @@ def check(prog, rep, tier):
         rep.bad("C04.reinsert-all", f"{CTX}.merge", "merge loop", "merge does not add every hash yielded by second.hashes()", mg.where())
 
 
-from ..selftest import Mutant, del_stmt, insert_stmt, replace_expr, replace_stmt
+from ..selftest import Mutant, del_stmt, insert_stmt, replace_expr, replace_stmt, seq
 
 _Q = "quotientfilter/quotientfilter.py"
 MUTANTS = [
@@ -315,5 +378,10 @@ MUTANTS = [
     Mutant("merge skips the first hash", _Q, replace_expr("QuotientFilter", "merge", "second.hashes()", "list(second.hashes())[1:]"), rule="C04.reinsert"),
     Mutant("mod_size = size", _Q, replace_stmt("QuotientFilter", "__set_params", "self.__mod_size: int = self._size - 1", "self.__mod_size: int = self._size"), rule="C04.geometry"),
     Mutant("one removal path forgets the counter", _Q, del_stmt("QuotientFilter", "_remove_element", "self._elements_added -= 1", nth=1), rule="C04.counter"),
+    Mutant("lookup compares the remainder before the run-boundary test", _Q,
+           seq(del_stmt("QuotientFilter", "_contained_at_loc", "if self._filter[start_idx] == r"),
+               insert_stmt("QuotientFilter", "_contained_at_loc", "if self._filter[start_idx] == r:\n    return start_idx", before="if starts == 2 or")), rule="C04.lookup"),
+    Mutant("fast removal path leaves the quotient marked occupied", _Q, del_stmt("QuotientFilter", "_remove_element", "if remove_orig_idx"), rule="C04.run-emptied"),
+    Mutant("main removal path leaves the quotient marked occupied", _Q, del_stmt("QuotientFilter", "_remove_element", "if remove_orig_idx", nth=1), rule="C04.run-emptied"),
     Mutant("mask spelled % size (same meaning)", _Q, replace_stmt("QuotientFilter", "_remove_element", "next_idx = idx + 1 & self.__mod_size", "next_idx = (idx + 1) % self._size"), expect="silent"),
 ]
